@@ -314,8 +314,12 @@ def main_check(a) -> int:
     if undecided or missing or ax_bad or n_obl == 0:
         for o in undecided:
             print(f"UNDECIDED {o.oid}: {o.detail.get('reason', '')[:300]}")
-        for m in missing:
-            print(f"UNDECIDED locked obligation {m} was not produced by this run")
+        if any(o.name in ("<build>", "<verus>") for o in undecided):
+            if missing:
+                print(f"UNDECIDED {len(missing)} locked obligations were not produced because a unit did not build")
+        else:
+            for m in missing:
+                print(f"UNDECIDED locked obligation {m} was not produced by this run")
         if ax_bad:
             print(f"UNDECIDED axiom audit: {json.dumps({k: ax_info.get(k) for k in ('refuted', 'unknown', 'never_instantiated', 'error')})}")
         return 2
